@@ -25,6 +25,7 @@ Contains(s, sub) == \E i \in 1..(Len(s) - Len(sub) + 1) : SubSeq(s, i, i + Len(s
 \* Known deviation "tplOneOfDescribe": a template literal with an alternation, `a${"b" | "bc"}`, is described as
 \* `a("b" | "bc")` (the ${ } is lost), which compiles to a different type.  r.tploneof: the program's type term
 \* contains such a template (syntactic projection by the harness).
+Half(v, which) == LET n == (Len(v) - 1) \div 2 IN IF which = 1 THEN SubSeq(v, 1, n) ELSE SubSeq(v, n + 2, Len(v))
 Explain(kind, r) ==
   IF kind \in {"described-validator-differs", "described-hash256-differs", "describe-not-a-fixpoint"}
      /\ r.tploneof /\ Contains(r.desc1, "(\"") /\ "tplOneOfDescribe" \in Open
@@ -33,6 +34,12 @@ Explain(kind, r) ==
   \* once; when that reference sits inside a member of a union / intersection the alias boundary disappears and the digest
   \* (and the member order of the re-described text) changes although the validator is the same.  r.refunder: the program
   \* has a named reference beneath a union or intersection (syntactic projection by the harness).
+  \* Known deviation "strictPerInterMember" (see BeffSem): an intersection with a NAMED member is emitted as an AllOf whose members
+  \* check strictness one by one; describe() inlines the named members, the re-compiled intersection is merged into one object
+  \* and is correct in strict mode.  Only the strict halves of the vectors may differ (r.namedinter: syntactic projection).
+  ELSE IF kind \in {"described-validator-differs", "described-hash256-differs", "describe-not-a-fixpoint"} /\ r.namedinter
+          /\ Half(r.vec1, 1) = Half(r.vec2, 1) /\ r.vec1 # r.vec2 /\ "strictPerInterMember" \in Open
+  THEN "strictPerInterMember"
   ELSE IF kind \in {"described-hash256-differs", "describe-not-a-fixpoint"} /\ r.vec2 = r.vec1 /\ r.refunder
           /\ "aliasAtMemberChangesDigest" \in Open
   THEN "aliasAtMemberChangesDigest"
